@@ -378,9 +378,18 @@ class PathRun:
             if len(qs) == 1 and int_forall(qs[0]):
                 side, core = [d for d in goal.children() if not has_quantifier(d)], qs[0]
         if int_forall(core):
-            self._sk = getattr(self, '_sk', 0) + 1
-            sks = [z3.Int(f'sk!{self._sk}!{k}') for k in range(core.num_vars())]
-            ngoal = z3.And(*[z3.Not(d) for d in side], z3.Not(z3.substitute_vars(core.body(), *reversed(sks))))
+            def skolemise(q):
+                # not forall j: (D(j) => forall k: Q(j, k))  ==  D(j0) and not Q(j0, k0) for fresh j0, k0 (nested quantifiers of the
+                # same kind under a quantifier-free domain condition are refuted at one more fresh index)
+                self._sk = getattr(self, '_sk', 0) + 1
+                mine = [z3.Int(f'sk!{self._sk}!{k}') for k in range(q.num_vars())]
+                body = z3.substitute_vars(q.body(), *reversed(mine))
+                if z3.is_implies(body) and int_forall(body.arg(1)) and not has_quantifier(body.arg(0)):
+                    conj, more = skolemise(body.arg(1))
+                    return [body.arg(0)] + conj, mine + more
+                return [z3.Not(body)], mine
+            conj, sks = skolemise(core)
+            ngoal = z3.And(*[z3.Not(d) for d in side], *conj)
         else:
             ngoal = z3.Not(goal)
         cands, seen = [], set()
@@ -476,6 +485,43 @@ class PathRun:
                 for a in sks:
                     for b in sks:
                         insts.append(z3.substitute_vars(h.body(), a, b))
+
+        # sorted(): r[a] == s[perm(a)], perm(inv(k)) == k.  A goal about element k0 of the source sequence needs the facts about
+        # the sorted sequence at inv(k0) (where did that element go), and the order / stability axioms at pairs of such positions
+        if sks:
+            invs, iseen = [], set()
+
+            def inv_decls(e, memo):
+                if e.get_id() in memo:
+                    return
+                memo.add(e.get_id())
+                if z3.is_quantifier(e):
+                    inv_decls(e.body(), memo)
+                    return
+                if z3.is_app(e):
+                    d = e.decl()
+                    if d.kind() == z3.Z3_OP_UNINTERPRETED and d.arity() == 1 and d.name().startswith('inv!') and d.name() not in iseen and len(invs) < 2:
+                        iseen.add(d.name())
+                        invs.append(d)
+                    for ch in e.children():
+                        inv_decls(ch, memo)
+            memo_i = set()
+            for h in (hyps if hyps is not None else self.pc):
+                if z3.is_quantifier(h):
+                    inv_decls(h, memo_i)
+            for d in invs:
+                wpos = [d(sk) for sk in sks[:2]]
+                for h in (hyps if hyps is not None else self.pc):
+                    if not (z3.is_quantifier(h) and h.is_forall()) or not all(h.var_sort(k) == z3.IntSort() for k in range(h.num_vars())):
+                        continue
+                    if h.num_vars() == 1:
+                        for w in wpos:
+                            insts.append(z3.substitute_vars(h.body(), w))
+                    elif h.num_vars() == 2:
+                        for a in wpos:
+                            for b in wpos:
+                                if a is not b:
+                                    insts.append(z3.substitute_vars(h.body(), a, b))
 
         def witness_terms(formulas, have):
             """ground applications of the witness functions of comprehensions (position of a source index in a filtered list,
